@@ -824,20 +824,22 @@ Section Glue.
   Lemma entry_ident_of k r p :
     Permutation (entry_ident k r (entry_of N (lcd_offset (rotate r k)) p)) (ident_path k r p).
   Proof.
-    unfold entry_ident, entry_of. cbn [snd]. rewrite sort_pairs_perm. rewrite K_off.
+    unfold entry_ident, entry_of. cbv zeta. cbn [snd]. rewrite sort_pairs_perm. rewrite K_off.
     unfold ident_path, instr_id. rewrite map_map. reflexivity.
   Qed.
 
-  (* e' (an entry of rotate r k) reports the same cycle as e (an entry of renumber k): same latency sum -- computed by the
-     same additions in the same order --, same member instructions of k with the same per-edge latencies *)
+  (* e' (an entry of rotate r k) reports the same cycle as e (an entry of renumber k): same member instructions of k with the
+     same per-edge latencies, and each latency sum is the left-to-right sum of the entry's own (sorted) member list.  The two
+     member lists are sorted by DIFFERENT line numbers (the rotation renumbers the lines), so the two sums add the same weights
+     in a cyclically shifted order: equal over exact rationals (rotation_lcd_entries_Q), not bit for bit over floats. *)
   Definition same_cycle (k : list line) (r : nat) (e e' : entry (T:=T)) : Prop :=
-    fst e' = fst e /\ Permutation (entry_ident k r e') (entry_ident k 0 e).
+    (fst e = sum_pairs N (snd e) /\ fst e' = sum_pairs N (snd e')) /\ Permutation (entry_ident k r e') (entry_ident k 0 e).
 
   Lemma same_cycle_of_paths k r p p' : ident_path k r p' = ident_path k 0 p ->
     same_cycle k r (entry_of N (lcd_offset (renumber k)) p) (entry_of N (lcd_offset (rotate r k)) p').
   Proof.
     intros H. split.
-    - unfold entry_of. cbn [fst]. rewrite !fold_weights, (ident_path_weights _ _ _ _ _ H). reflexivity.
+    - split; reflexivity.
     - rewrite entry_ident_of, H. rewrite <- (rotate_0 k). symmetry. apply entry_ident_of.
   Qed.
 
@@ -953,8 +955,17 @@ Section GlueQ.
 
   Lemma entry_sum off p : fst (entry_of QNum off p) == sumQ (snd (entry_of QNum off p)).
   Proof.
-    unfold entry_of. cbn [fst snd]. rewrite fold_sumQ. change (n0 QNum) with 0.
-    rewrite (sumQ_perm _ _ (sort_pairs_perm QNum _)), sumQ_map. ring.
+    unfold entry_of, sum_pairs. cbv zeta. cbn [fst snd]. rewrite fold_sumQ. change (n0 QNum) with 0. ring.
+  Qed.
+
+  Lemma sumQ_ident (k : list line) r (e : entry (T:=Q)) : sumQ (entry_ident k r e) = sumQ (snd e).
+  Proof. unfold entry_ident. apply (sumQ_map (fun x => (x - 1 + r) mod List.length k)). Qed.
+
+  (* two raw entries of the same cycle have ==-equal sums: the same weights, summed in the order of their own sorted lists *)
+  Lemma same_cycle_sum (k : list line) r (e e' : entry (T:=Q)) : same_cycle QNum k r e e' -> fst e' == fst e.
+  Proof.
+    intros ((E1 & E2) & P). rewrite E1, E2. unfold sum_pairs. rewrite !fold_sumQ. change (n0 QNum) with 0.
+    rewrite <- (sumQ_ident k r e'), <- (sumQ_ident k 0 e), (sumQ_perm _ _ P). reflexivity.
   Qed.
 
   Lemma neqb_Q_refl : forall a : Q, neqb QNum a a = true.
@@ -983,13 +994,15 @@ Section GlueQ.
                   same_members (entry_ident k r e') (entry_ident k 0 e0)).
   Proof.
     intros Hr. destruct (rotation_lcd_entries QNum dep fwd pidx fd k r neqb_Q_refl Hr) as (F & B). split.
-    - intros e He. destruct (F e He) as (e' & e'' & H'' & H' & (S1 & S2) & Pq).
+    - intros e He. destruct (F e He) as (e' & e'' & H'' & H' & S & Pq). pose proof (same_cycle_sum k r e e' S) as S1.
+      destruct S as (_ & S2).
       exists e''. split; [exact H''|]. split.
       + rewrite lcd_entries_raw in H''. apply dedup_subset in H''.
         destruct (raw_is_entry _ _ _ _ _ _ _ H'') as (p'' & ->). destruct (raw_is_entry _ _ _ _ _ _ _ H') as (p' & ->).
         rewrite <- S1, !entry_sum. symmetry. apply sumQ_pairs_eqb. exact Pq.
       + exists (entry_ident k r e'). split; [exact S2 | apply ident_forall2; exact Pq].
-    - intros e' He'. destruct (B e' He') as (e & e0 & H0 & H & (S1 & S2) & Pq).
+    - intros e' He'. destruct (B e' He') as (e & e0 & H0 & H & S & Pq). pose proof (same_cycle_sum k r e e' S) as S1.
+      destruct S as (_ & S2).
       exists e0. split; [exact H0|]. split.
       + rewrite lcd_entries_raw in H0. apply dedup_subset in H0.
         destruct (raw_is_entry _ _ _ _ _ _ _ H0) as (p0 & ->). destruct (raw_is_entry _ _ _ _ _ _ _ H) as (p & E).
